@@ -44,6 +44,10 @@ def labels(first, under):
         ls += [b"www", b"other", b"com"]
     elif under == "suffix":      # ends with the domain's text but not at a label boundary
         ls += [b"notexample", b"org"]
+    elif under == "dot-in-label":      # the domain's text appears after a dot that is an octet INSIDE a label (presented as \.)
+        ls = [(ls[0] if ls else b"") + b".example", b"org"]
+    elif under == "domain-in-label":   # the whole domain inside one label
+        ls = [(ls[0] if ls else b"") + b".example.org"]
     return ls
 
 
@@ -103,8 +107,8 @@ def server_cases(tier, rng):
     # ordinary lookups and degenerate names
     for first in (b"mail", b"", b"v", b"va", b"vab", b"vabc", b"c", b"o0", b"caaa", b"caaa0", b"caaaz", b"raaa0", b"oaaa00", b"yaaa", b"laaa", b"eaaa",
                   b"maaa", b"zaaa", b"zaaa0", b"zaaa00", b"waaa00", b"0aaa00", b"VAAA", b"CAAA00", b"caaa-1", b"caaa+1", b"caaa_1", b"caaa\xff\xff"):
-        for under in ("domain", "none", "other"):
-            cs.append(mk_s(first, under, rng.choice(QT), 1, 1, 0, "degenerate", "short"))
+        for under in ("domain", "none", "other", "dot-in-label", "domain-in-label"):
+            cs.append(mk_s(first[:50], under, rng.choice(QT), 1, 1, 0, "degenerate", "short"))
     for under in ("domain", "none"):
         for nq in (0, 2, 3):
             cs.append(mk_s(rng.choice([b"", b"a", b"vaaa", b"aacaaa00"]), under, 10, 1, nq, 0, "qcount", "short"))
@@ -120,7 +124,7 @@ def server_cases(tier, rng):
         uid = rng.choice([b"00"] * 12 + [b"01", b"zz", b"ZZ", b"0", b"", b"$$", b"-1", b"+1", b"10", b"\xff\xff"])
         bclass, body = body_for(letter, rng)
         first = letter.encode("latin-1") + cache + uid + body
-        under = rng.choice(["domain"] * 6 + ["upper", "none", "other", "suffix"])
+        under = rng.choice(["domain"] * 8 + ["upper", "none", "other", "suffix", "dot-in-label", "domain-in-label"])
         qt = rng.choice(QT * 3 + [255, 0, 65535, 2, 6, 12, 41, 99])
         qc = rng.choice([1, 1, 1, 1, 255, 0, 3, 65535])
         nq = rng.choice([1] * 12 + [0, 2, 3])
